@@ -344,11 +344,15 @@ def observed_doc(got):
 
 
 def _native_equal(expected, got) -> bool:
-    """`got` is a Python list/dict handed out by the driver (an ARRAY result that is not JSON text): its elements may
-    themselves be JSON text where the expected element is a container (the result type is not this property's business)"""
-    if isinstance(got, str) and isinstance(expected, (list, dict)):
+    """`got` is a Python list/dict handed out by the driver (an ARRAY result that is not JSON text). Its elements may
+    themselves be JSON text (a list of JSON values): a str element is accepted if it is the expected string itself or
+    JSON text denoting the expected element. (The result *type* of constructors is not this property's business; a
+    coerced *value* -- 1 for TRUE -- still differs.)"""
+    if isinstance(got, str):
+        if isinstance(expected, str) and got == expected:
+            return True
         try:
-            got = json.loads(got)
+            return json_equal(expected, json.loads(got))
         except ValueError:
             return False
     if isinstance(expected, list):
